@@ -991,7 +991,10 @@ example : singleKind '@' = some .at ∧ singleKind '{' = some .openBrace ∧ sin
     additionally, `SItem.SimpleX`: when INLINE_QUANTITIES is on a text item contains no inline quantity
     (`find_inline_quantity` finds nothing, e.g. because it has no digit: `C01_text_without_digit`), when
     ADVANCED_UNITS is on a timer amount is numeric and its unit is a unit of time — both vacuous when the
-    extensions are off), section lines (`SBlock.sect`, named or not) and `>>` metadata entries
+    extensions are off), text paragraphs (`SBlock.para`: the texts the parser delivers between
+    `start text` and `end text`; their joined text becomes one `Content::Text` of the current section,
+    nothing when it is empty, and the step counter does not move: `paraContent`), section lines
+    (`SBlock.sect`, named or not) and `>>` metadata entries
     (`SBlock.entry`) that are plain (`EntryPlain`: not a `[mode]` switch under MODES, not a standard key
     whose value `check_std_entry` rejects, not `time` / `prep time` / `cook time`).  Then `parse_events`
     returns a recipe with
@@ -1348,6 +1351,12 @@ theorem C01_analysis_doc_refs {α : Type} [Arith α] (env : Env) (input : Str)
       c.diags = deprecation (docSpans (docEntries blocks)) ∧
       c.inlineQ = #[] ∧ c.frontMatter = none :=
   rtsr_parseEvents_doc env input blocks hok
+
+/-! example: a text paragraph between two steps keeps its place in the section and is not numbered -/
+example : docSecs (α := Rat) C01_toyEnv [] ⟨none, []⟩ 1
+    [.step [.text (C01_txt "a" 0)], .para [C01_txt "Note: " 3, C01_txt "rest." 9], .step [.text (C01_txt "b" 16)]] =
+    [⟨none, [.step ⟨[.text ['a']], 1⟩, .text "Note: rest.".toList, .step ⟨[.text ['b']], 2⟩]⟩] := by
+  simp [docSecs, paraContent, itemsFrom, SItem.toItem, C01_txt, Text.text, Section.isEmpty]
 
 /-- without `&` the table function is the list of the written definitions -/
 theorem C01_ingr_table_without_references {α : Type} [Arith α] (env : Env) (l : List (Loc (PIngredient α)))
